@@ -148,3 +148,15 @@ func HitSet() []int {
 	}
 	return out
 }
+
+// ---- yields: simgen puts Yield(site) right after every channel receive of the simulated packages
+
+// YieldFn is installed by the harness for the duration of a run; nil outside.
+var YieldFn func(site string)
+
+// Yield hands control to the scheduler (a scheduling point that is always enabled).
+func Yield(site string) {
+	if f := YieldFn; f != nil {
+		f(site)
+	}
+}
